@@ -538,7 +538,7 @@ func (in *Interp) convertViaRT(s *State, from, to types.Type, v Value) string {
 	}
 	switch {
 	case isStr(fu) && isRunes(tu):
-		if str := v.(*Str); str.B != nil {
+		if str := in.mat(v.(*Str)); str.B != nil {
 			return "StringToRunes"
 		}
 	case isRunes(fu) && isStr(tu):
@@ -597,7 +597,7 @@ func (in *Interp) convert(s *State, from, to types.Type, v Value, at ssa.Instruc
 	if fok && fb.Info()&types.IsString != 0 {
 		if sl, ok := tu.(*types.Slice); ok {
 			eb, _ := sl.Elem().Underlying().(*types.Basic)
-			str := v.(*Str)
+			str := in.mat(v.(*Str))
 			if eb != nil && eb.Kind() == types.Uint8 {
 				bs := in.strBytes(str)
 				arr := &Agg{Elems: make([]Value, len(bs))}
